@@ -176,6 +176,50 @@ func runMulticastOut(h string) func(e *env, c *Case) Obs {
 	}
 }
 
+// multicast.discover: the node's own discovery round for a joined group whose only member is the peer:
+// getGroupNode(peer) reads the peer's FindGroupResp (addresses of any length, filed with g.add), then
+// HandshakeAllPeers on the known members reads the peer's GIDs replies.
+var discGID = multicast.GenerateGID("c37-discover")
+
+func runMulticastDiscover(e *env, c *Case) Obs {
+	var m mcMsg
+	_ = json.Unmarshal(c.Msg, &m)
+	fr, _ := proto.Marshal(&mpb.FindGroupResp{Addresses: bytesList(m.Paths)})
+	gr, _ := proto.Marshal(&mpb.GIDs{Gid: bytesList(m.Gids)})
+	findReply, hsReply := [][]byte{frame(fr)}, [][]byte{frame(gr)}
+	if c.Kind == "raw" {
+		findReply = rawChunks(c)
+		if c.Scen == "rawgids" {
+			findReply, hsReply = [][]byte{frame(fr)}, rawChunks(c)
+		}
+	}
+	reply := func(chunks [][]byte) p2p.HandlerFunc {
+		return func(ctx context.Context, p p2p.Peer, s p2p.Stream) error {
+			for _, ch := range chunks {
+				if len(ch) > 0 {
+					if _, err := s.Write(ch); err != nil {
+						return nil
+					}
+				}
+			}
+			return s.Close()
+		}
+	}
+	evil := p2p.ProtocolSpec{Name: "multicast", Version: "1.2.0", StreamSpecs: []p2p.StreamSpec{
+		{Name: "handshake", Handler: reply(hsReply)}, {Name: "findGroup", Handler: reply(findReply)}}}
+	svc := newMulticast(e, evil)
+	svc.VerifC37JoinGroup(discGID, false)
+	// the peer becomes a (kept) member through its own handshake
+	hb, _ := proto.Marshal(&mpb.GIDs{Gid: [][]byte{discGID.Bytes()}})
+	pr := driveInbound(svc.Protocol(), "handshake", e.peer.overlay, false, [][]byte{frame(hb)}, 30*time.Second)
+	if pr.panicked || pr.hang {
+		return Obs{Panic: pr.panicked, PMsg: pr.pmsg, Hang: pr.hang, Where: "handler(pre)"}
+	}
+	r := guardClient(40*time.Second, func() error { svc.VerifC37Discover(discGID, 8); return nil })
+	_, _, kn := svc.VerifC37GroupSizes(discGID)
+	return Obs{Panic: r.panicked, PMsg: r.pmsg, Hang: r.hang, Where: "client", Aux: map[string]int{"known": kn}}
+}
+
 // ---------------------------------------------------------------- Coq
 
 func coqBytesList(hs []string) string {
@@ -221,6 +265,12 @@ func coqMulticast(h string) func(c *Case, o *Obs) (string, bool) {
 			}
 			return hx.CoqApp("CMcMulticast", coqHB(n.overlay.Bytes()), coqHB(unhex(m.Origin)), coqHB(unhex(m.Gid)), hx.CoqBool(mcExists(o, &m)),
 				coqBytesList(o.Lists["known"]), coqBytesList(o.Lists["joined"]), coqOutcome(o)), true
+		case "multicast.hsout":
+			return hx.CoqApp("CMcHsOut", coqBytesList(m.Gids), coqOutcome(o)), true
+		case "multicast.send":
+			return hx.CoqApp("CMcSend", hx.CoqApp("mkGroupMsg", coqHB(unhex(m.Gid)), coqHB(unhex(m.Data)), hx.CoqZ(int64(m.Type)), coqHB([]byte(m.Err))), coqOutcome(o)), true
+		case "multicast.discover":
+			return hx.CoqApp("CMcDiscover", coqHB(n.overlay.Bytes()), coqBytesList(m.Paths), coqBytesList(m.Gids), coqOutcome(o), hx.CoqZ(int64(o.Aux["known"]))), true
 		case "multicast.message":
 			joined := m.Gid == hx.Hex(joinedGID.Bytes()) || m.Gid == hx.Hex(subbedGID.Bytes())
 			sub := m.Gid == hx.Hex(subbedGID.Bytes())
@@ -369,7 +419,10 @@ func genMulticast(run *hx.Run, add func(*Case)) {
 		{hs(mixed[5], mixed[6])}, {hs(mixed[4], mixed[0], mixed[1])},
 		{mcPre{H: "multicast.findgroup", M: mcMsg{Gid: mixed[1], Limit: 1}}, hs(mixed[0], mixed[3])},
 	}
-	for _, pre := range pres {
+	if !run.Thorough() {
+		pres = append(pres[:3:3], pres[5], pres[6], pres[10]) // every new group costs the 500 ms groupPeers throttle
+	}
+	for pi, pre := range pres {
 		for _, g := range []string{unknown, "", hx.Hex(long[:1]), hx.Hex(long[:31]), hx.Hex(long), hx.Hex(long[:32])} {
 			if !run.Thorough() && r.Intn(2) != 0 {
 				continue
@@ -377,9 +430,26 @@ func genMulticast(run *hx.Run, add func(*Case)) {
 			seq("multicast.multicast", "mixed-length-gids-then-multicast", pre, &mcMsg{Gid: g, Origin: peer, Data: "02"})
 			seq("multicast.findgroup", "mixed-length-gids-then-findgroup", pre, &mcMsg{Gid: g, Limit: 3, TTL: int32(r.Intn(3))})
 		}
+		if !run.Thorough() && pi > 1 {
+			continue
+		}
 		seq("multicast.handshake", "mixed-length-gids-then-handshake", pre, &mcMsg{Gids: []string{mixed[r.Intn(len(mixed))]}})
 		seq("multicast.notify", "mixed-length-gids-then-notify", pre, &mcMsg{Status: 2, Gids: []string{mixed[0], mixed[1]}})
 		seq("multicast.message", "mixed-length-gids-then-message", pre, &mcMsg{Gid: mixed[1], Type: 0})
+	}
+	// ---- the node's own discovery round: find-group reply with addresses of every length (the peer itself, the
+	// node itself, prefixes), then the GIDs replies of the handshakes with the members it learnt
+	dg := hx.Hex(discGID.Bytes())
+	addrSets := [][]string{nil, {peer}, {self}, {hx.Hex(long[:32]), hx.Hex(long[:1]), hx.Hex(long[:31]), hx.Hex(long), ""}, {peer, self, "", "01", hx.Hex(make([]byte, 200))},
+		{hx.Hex(long[:1]), hx.Hex(long[:1]), hx.Hex(long[:32])}}
+	gidSets := [][]string{nil, {dg}, {dg, mixed[1], mixed[0]}, {"", hx.Hex(long[:31])}}
+	for i, as := range addrSets {
+		for k, gs := range gidSets {
+			if !run.Thorough() && k != i%len(gidSets) && !(k == 1 && i == 3) {
+				continue
+			}
+			mk("multicast.discover", "", "find-group-reply-then-gids-replies", &mcMsg{Paths: as, Gids: gs})
+		}
 	}
 	// ---- client reads
 	for _, gs := range [][]string{nil, {jg}, {"", "01"}, {hx.Hex(make([]byte, 500))}} {
@@ -403,11 +473,16 @@ func genMulticast(run *hx.Run, add func(*Case)) {
 		{"multicast.message", &mpb.GroupMsg{Gid: subbedGID.Bytes(), Type: 1}},
 		{"multicast.hsout", &mpb.GIDs{Gid: [][]byte{joinedGID.Bytes()}}},
 		{"multicast.send", &mpb.GroupMsg{}},
+		{"multicast.discover", &mpb.FindGroupResp{Addresses: [][]byte{p.overlay.Bytes()}}},
 	} {
 		v, _ := proto.Marshal(rd.valid)
 		for _, chunks := range rawStreams(r, v, run.N(8, 200)) {
 			add(&Case{H: rd.h, Kind: "raw", Raw: hexes(chunks...), Class: "raw-bytes"})
 		}
+	}
+	gv, _ := proto.Marshal(&mpb.GIDs{Gid: [][]byte{discGID.Bytes()}})
+	for _, chunks := range rawStreams(r, gv, run.N(2, 150)) {
+		add(&Case{H: "multicast.discover", Kind: "raw", Scen: "rawgids", Raw: hexes(chunks...), Class: "raw-bytes-gids-reply"})
 	}
 	_ = boson.ZeroAddress
 }
@@ -417,7 +492,8 @@ func init() {
 		{"multicast.notify", "notify"}, {"multicast.message", "message"}} {
 		register(&handlerDef{id: d.h, run: runMulticastIn(d.h, d.stream), coq: coqMulticast(d.h)})
 	}
-	register(&handlerDef{id: "multicast.hsout", run: runMulticastOut("multicast.hsout"), coq: nil})
-	register(&handlerDef{id: "multicast.send", run: runMulticastOut("multicast.send"), coq: nil})
+	register(&handlerDef{id: "multicast.hsout", run: runMulticastOut("multicast.hsout"), coq: coqMulticast("multicast.hsout")})
+	register(&handlerDef{id: "multicast.send", run: runMulticastOut("multicast.send"), coq: coqMulticast("multicast.send")})
+	register(&handlerDef{id: "multicast.discover", run: runMulticastDiscover, coq: coqMulticast("multicast.discover")})
 	generators = append(generators, genMulticast)
 }
